@@ -5,313 +5,7 @@ use core::cmp::Ordering;
 verus! {
 global size_of usize == 8;
 //@ include units/common/float.inc.rs
-//@ item layout21tetris/src/coords.rs :: type Int
-//@ end
-// =====================================================================================================
-// MODELS (rule R5)
-// =====================================================================================================
-//@ item layout21tetris/src/coords.rs :: struct DbUnits
-//@   derive Debug, Clone, Copy
-//@ end
-// model of #[derive(PartialEq, PartialOrd)] on DbUnits(pub Int): comparison of the wrapped integer (Verus gives derived comparisons no meaning)
-impl PartialEqSpecImpl for DbUnits {
-    open spec fn obeys_eq_spec() -> bool { true }
-    open spec fn eq_spec(&self, other: &Self) -> bool { self.0 == other.0 }
-}
-impl PartialEq for DbUnits { fn eq(&self, other: &Self) -> bool { self.0 == other.0 } }
-impl PartialOrdSpecImpl for DbUnits {
-    open spec fn obeys_partial_cmp_spec() -> bool { true }
-    open spec fn partial_cmp_spec(&self, other: &Self) -> Option<Ordering> {
-        if self.0 < other.0 { Some(Ordering::Less) } else if self.0 > other.0 { Some(Ordering::Greater) } else { Some(Ordering::Equal) }
-    }
-}
-impl PartialOrd for DbUnits {
-    fn partial_cmp(&self, other: &Self) -> Option<Ordering> {
-        if self.0 < other.0 { Some(Ordering::Less) } else if self.0 > other.0 { Some(Ordering::Greater) } else { Some(Ordering::Equal) }
-    }
-}
-/// model of layout21utils::Ptr<T> (opaque shared handle; clone yields the same handle)
-pub struct Ptr<T> { pub id: usize, pub _p: core::marker::PhantomData<T> }
-impl<T> Clone for Ptr<T> { #[verifier::external_body] fn clone(&self) -> (r: Self) ensures r == *self { unimplemented!() } }
-pub struct Instance { pub name: String }
-#[derive(Debug)]
-pub struct LayoutError { }
-pub type LayoutResult<T> = Result<T, LayoutError>;
-impl LayoutError {
-    /// model of LayoutError::fail: always an error
-    #[verifier::external_body]
-    pub fn fail<T, M>(msg: M) -> (r: Result<T, LayoutError>) ensures r is Err { Err(LayoutError { }) }
-}
-//@ item layout21tetris/src/tracks.rs :: struct TrackRef
-//@   derive Debug, Clone, Copy
-//@ end
-//@ item layout21tetris/src/tracks.rs :: struct TrackCross
-//@   derive Debug, Clone, Copy
-//@ end
-//@ item layout21tetris/src/stack.rs :: struct Assign
-//@ end
-impl Clone for Assign { #[verifier::external_body] fn clone(&self) -> (r: Self) ensures r == *self { unimplemented!() } }
-//@ item layout21tetris/src/tracks.rs :: enum RailKind
-//@   derive Debug, Clone, Copy
-//@ end
-//@ item layout21tetris/src/tracks.rs :: enum TrackSegmentType
-//@ end
-// model of #[derive(Clone)]: an equal value
-impl<'lib> Clone for TrackSegmentType<'lib> { #[verifier::external_body] fn clone(&self) -> (r: Self) ensures r == *self { unimplemented!() } }
-//@ item layout21tetris/src/tracks.rs :: struct TrackSegment
-//@ end
-//@ item layout21tetris/src/tracks.rs :: enum TrackConflict
-//@ end
-//@ item layout21tetris/src/tracks.rs :: enum TrackError
-//@ end
-//@ item layout21tetris/src/tracks.rs :: type TrackResult
-//@ end
-/// model of `impl From<TrackSegmentType> for TrackConflict` (panics with unreachable!() on wires and rails: that is a precondition)
-#[verifier::external_body]
-pub fn vp_conflict_from<'a>(tp: TrackSegmentType<'a>) -> (r: TrackConflict)
-    requires tp is Cut || tp is Blockage,
-{ unimplemented!() }
-pub assume_specification<T>[ Option::<T>::replace ](o: &mut Option<T>, v: T) -> (r: Option<T>) ensures *final(o) == Some(v), r == *old(o);
-/// R5: TrackData reduced away; the track is its segments
-pub struct Track<'lib> { pub segments: Vec<TrackSegment<'lib>> }
-
-// =====================================================================================================
-// SPEC: a track's segments tile its span (C08)
-// =====================================================================================================
-/// ordered pieces, each starting where the previous one stops, none of negative length
-pub open spec fn tiles(s: Seq<TrackSegment>) -> bool {
-    &&& s.len() >= 1
-    &&& forall|i: int| 0 <= i < s.len() ==> (#[trigger] s[i]).start.0 <= s[i].stop.0
-    &&& forall|i: int| 0 <= i < s.len() - 1 ==> #[trigger] joined(s, i)
-}
-pub open spec fn joined(s: Seq<TrackSegment>, i: int) -> bool { s[i].stop == s[i + 1].start }
-/// the result of cutting [start, stop) out of segment k: the piece before, the cut/blockage, the piece after (if any), everything else untouched
-pub open spec fn cut_result<'a>(s: Seq<TrackSegment<'a>>, k: int, start: DbUnits, stop: DbUnits, tp: TrackSegmentType<'a>) -> Seq<TrackSegment<'a>> {
-    let head = s.take(k).push(TrackSegment { tp: s[k].tp, start: s[k].start, stop: start }).push(TrackSegment { tp, start, stop });
-    let mid = if s[k].stop != stop { head.push(TrackSegment { tp: s[k].tp, start: stop, stop: s[k].stop }) } else { head };
-    mid + s.skip(k + 1)
-}
-/// the segment a cut at `start` lands in: the first one that stops after `start`
-pub open spec fn first_after(s: Seq<TrackSegment>, start: DbUnits, k: int) -> bool {
-    0 <= k < s.len() && s[k].stop.0 > start.0 && forall|j: int| 0 <= j < k ==> (#[trigger] s[j]).stop.0 <= start.0
-}
-/// R6: `self.segments.iter_mut().position(|seg| seg.stop > start)` — the first-match loop that Iterator::position performs
-pub fn vp_position_stop_gt<'a>(segs: &Vec<TrackSegment<'a>>, start: DbUnits) -> (r: Option<usize>)
-    ensures match r { Some(k) => first_after(segs@, start, k as int), None => forall|j: int| 0 <= j < segs@.len() ==> (#[trigger] segs@[j]).stop.0 <= start.0 },
-{
-    let mut k: usize = 0;
-    while k < segs.len()
-        invariant k <= segs.len(), forall|j: int| 0 <= j < k ==> (#[trigger] segs@[j]).stop.0 <= start.0,
-        decreases segs.len() - k,
-    {
-        if segs[k].stop > start { return Some(k); }
-        k += 1;
-    }
-    None
-}
-
-
-/// cutting inside a tiling leaves a tiling (pure sequence reasoning)
-proof fn lemma_cut_tiles<'a>(o: Seq<TrackSegment<'a>>, k: int, start: DbUnits, stop: DbUnits, tp: TrackSegmentType<'a>)
-    requires tiles(o), first_after(o, start, k), o[0].start.0 <= start.0, start.0 < stop.0, stop.0 <= o[k].stop.0,
-    ensures tiles(cut_result(o, k, start, stop, tp)),
-{
-    let f = cut_result(o, k, start, stop, tp);
-    let n: int = if o[k].stop != stop { 2 } else { 1 };
-    assert(f.len() == o.len() + n);
-    assert(forall|i: int| 0 <= i < k ==> f[i] == o[i]);
-    assert(f[k] == TrackSegment { tp: o[k].tp, start: o[k].start, stop: start });
-    assert(f[k + 1] == TrackSegment { tp, start, stop });
-    if n == 2 { assert(f[k + 2] == TrackSegment { tp: o[k].tp, start: stop, stop: o[k].stop }); }
-    assert(forall|i: int| k + n < i < f.len() ==> f[i] == o[i - n]);
-    // the piece before the cut is not of negative length
-    if k > 0 { assert(joined(o, k - 1)); assert(o[k - 1].stop.0 <= start.0); }
-    assert(o[k].start.0 <= start.0);
-    assert forall|i: int| 0 <= i < f.len() implies (#[trigger] f[i]).start.0 <= f[i].stop.0 by {
-        if i < k { assert(o[i].start.0 <= o[i].stop.0); } else if i > k + n { assert(o[i - n].start.0 <= o[i - n].stop.0); }
-    }
-    assert forall|i: int| 0 <= i < f.len() - 1 implies #[trigger] joined(f, i) by {
-        if i < k - 1 { assert(joined(o, i)); }
-        else if i == k - 1 { assert(joined(o, k - 1)); }
-        else if i == k || (i == k + 1 && n == 2) { }
-        else if i == k + n { assert(joined(o, k)); }
-        else { assert(joined(o, i - n)); }
-    }
-}
-
-impl<'lib> Track<'lib> {
-//@ fn layout21tetris/src/tracks.rs :: impl<'lib> Track<'lib> :: fn cut_or_block
-//@   ret r
-//@   sub R6 /self\s*\.segments\s*\.iter_mut\(\)\s*\.position\(\|seg\| seg\.stop > start\)/ => vp_position_stop_gt(&self.segments, start)
-//@   sub R5 /TrackConflict::from\(tp\)/ => vp_conflict_from(tp)
-//@   spec
-//|     requires tiles(old(self).segments@), old(self).segments@[0].start.0 <= start.0, start.0 < stop.0, tp is Cut || tp is Blockage, old(self).segments@.len() < 0x7fff_ffff_ffff_fff0,
-//|     ensures
-//|         r is Ok ==> (exists|k: int| first_after(old(self).segments@, start, k) && (old(self).segments@[k].tp is Wire || old(self).segments@[k].tp is Rail)
-//|             && stop.0 <= old(self).segments@[k].stop.0 && #[trigger] cut_result(old(self).segments@, k, start, stop, tp) == final(self).segments@),
-//|         r is Ok ==> tiles(final(self).segments@),
-//|         r is Err ==> final(self).segments@ == old(self).segments@,
-//@   before /for \(idx, seg\) in to_be_inserted/
-//|         let ghost k = segidx as int;
-//|         let ghost o = old(self).segments@;
-//|         let ghost base = o.update(k, TrackSegment { tp: o[k].tp, start: o[k].start, stop: start });
-//|         let ghost ins = to_be_inserted@;
-//|         proof {
-//|             assert(self.segments@ =~= base);
-//|             assert(first_after(o, start, k));
-//|             assert(ins.len() == 1 || ins.len() == 2);
-//|             assert(ins[0].0 == k + 1 && ins[0].1 == TrackSegment { tp, start, stop });
-//|             assert(ins.len() == 2 ==> ins[1].0 == k + 2 && ins[1].1 == TrackSegment { tp: o[k].tp, start: stop, stop: o[k].stop });
-//|             assert((ins.len() == 2) == (o[k].stop != stop));
-//|         }
-//@   loop 1 iter it
-//|             invariant it.seq() == ins, ins.len() == 1 || ins.len() == 2, 0 <= k < base.len(), ins[0].0 == k + 1, ins.len() == 2 ==> ins[1].0 == k + 2,
-//|                 it.index@ == 0 ==> self.segments@ == base,
-//|                 it.index@ == 1 ==> self.segments@ == base.insert(k + 1, ins[0].1),
-//|                 it.index@ == 2 ==> self.segments@ == base.insert(k + 1, ins[0].1).insert(k + 2, ins[1].1),
-//|                 base.len() < 0x7fff_ffff_ffff_fff0,
-//@   before /^        Ok\(\(\)\)$/
-//|         proof {
-//|             assert(self.segments@ =~= cut_result(o, k, start, stop, tp));
-//|             lemma_cut_tiles(o, k, start, stop, tp);
-//|         }
-//@ end
-
-//@ fn layout21tetris/src/tracks.rs :: impl<'lib> Track<'lib> :: fn block
-//@   ret r
-//@   spec
-//|     requires tiles(old(self).segments@), old(self).segments@[0].start.0 <= start.0, start.0 < stop.0, old(self).segments@.len() < 0x7fff_ffff_ffff_fff0,
-//|     ensures
-//|         r is Ok ==> (exists|k: int| first_after(old(self).segments@, start, k) && (old(self).segments@[k].tp is Wire || old(self).segments@[k].tp is Rail)
-//|             && stop.0 <= old(self).segments@[k].stop.0 && #[trigger] cut_result(old(self).segments@, k, start, stop, TrackSegmentType::Blockage { src: *src }) == final(self).segments@),
-//|         r is Ok ==> tiles(final(self).segments@),
-//|         r is Err ==> final(self).segments@ == old(self).segments@,
-//@ end
-//@ fn layout21tetris/src/tracks.rs :: impl<'lib> Track<'lib> :: fn cut
-//@   ret r
-//@   spec
-//|     requires tiles(old(self).segments@), old(self).segments@[0].start.0 <= start.0, start.0 < stop.0, old(self).segments@.len() < 0x7fff_ffff_ffff_fff0,
-//|     ensures
-//|         r is Ok ==> (exists|k: int| first_after(old(self).segments@, start, k) && (old(self).segments@[k].tp is Wire || old(self).segments@[k].tp is Rail)
-//|             && stop.0 <= old(self).segments@[k].stop.0 && #[trigger] cut_result(old(self).segments@, k, start, stop, TrackSegmentType::Cut { src }) == final(self).segments@),
-//|         r is Ok ==> tiles(final(self).segments@),
-//|         r is Err ==> final(self).segments@ == old(self).segments@,
-//@ end
-//@ fn layout21tetris/src/tracks.rs :: impl<'lib> Track<'lib> :: fn stop
-//@   ret r
-//@   spec
-//|     ensures r is Ok <==> old(self).segments@.len() > 0,
-//|         r is Ok ==> final(self).segments@ == old(self).segments@.update(old(self).segments@.len() - 1,
-//|             TrackSegment { tp: old(self).segments@.last().tp, start: old(self).segments@.last().start, stop }),
-//@ end
-
-//@ fn layout21tetris/src/tracks.rs :: impl<'lib> Track<'lib> :: fn set_net
-//@   sub R5 /TrackConflict::from\(seg\.tp\.clone\(\)\)/ => vp_conflict_from(seg.tp.clone())
-//@   ret r
-//@   spec
-//|     requires forall|i: int| 0 <= i < old(self).segments@.len() ==> !((#[trigger] old(self).segments@[i]).tp is Rail),
-//|     ensures final(self).segments@.len() == old(self).segments@.len(),
-//@   sub R3 /let mut seg = None;/ => let mut seg: Option<&mut TrackSegment<'lib>> = None;
-//@   loop 1 iter it
-//|             invariant seg is Some ==> !((*seg->0).tp is Rail),
-//|                 forall|i: int| 0 <= i < it.seq().len() ==> !((*#[trigger] it.seq()[i]).tp is Rail),
-//@ end
-}
-
-// =====================================================================================================
-// track centre / span arithmetic (layout21tetris/src/validate.rs), with the DbUnits operators it uses
-// =====================================================================================================
-// model of derive_more::{Add, AddAssign} on DbUnits(pub Int): component-wise on the wrapped integer — assumption
-impl vstd::std_specs::ops::AddSpecImpl<DbUnits> for DbUnits {
-    open spec fn obeys_add_spec() -> bool { true }
-    open spec fn add_req(self, rhs: DbUnits) -> bool { isize::MIN <= self.0 + rhs.0 <= isize::MAX }
-    open spec fn add_spec(self, rhs: DbUnits) -> DbUnits { DbUnits((self.0 + rhs.0) as isize) }
-}
-impl std::ops::Add<DbUnits> for DbUnits { type Output = DbUnits; fn add(self, rhs: DbUnits) -> DbUnits { DbUnits(self.0 + rhs.0) } }
-/// model of the derived `+=`
-#[verifier::external_body]
-pub fn vp_add_assign(a: &mut DbUnits, b: DbUnits) requires isize::MIN <= old(a).0 + b.0 <= isize::MAX ensures final(a).0 == old(a).0 + b.0 { a.0 += b.0 }
-// R8: contracts of the hand-written operators, through vstd's operator spec traits
-impl vstd::std_specs::ops::DivSpecImpl<Int> for DbUnits {
-    open spec fn obeys_div_spec() -> bool { true }
-    open spec fn div_req(self, rhs: Int) -> bool { rhs > 0 && self.0 >= 0 }
-    open spec fn div_spec(self, rhs: Int) -> DbUnits { DbUnits((self.0 / rhs) as isize) }
-}
-impl std::ops::Div<Int> for DbUnits {
-    type Output = Self;
-//@ fn layout21tetris/src/coords.rs :: impl std::ops::Div<Int> for DbUnits :: fn div
-//@ end
-}
-impl HasUnits for DbUnits {
-//@ fn layout21tetris/src/coords.rs :: impl HasUnits for DbUnits :: fn raw
-//@   ret r
-//@   spec
-//|     ensures r == self.0,
-//@ end
-}
-//@ item layout21tetris/src/coords.rs :: trait HasUnits
-//@ end
-impl vstd::std_specs::ops::MulSpecImpl<usize> for DbUnits {
-    open spec fn obeys_mul_spec() -> bool { true }
-    open spec fn mul_req(self, rhs: usize) -> bool { rhs <= isize::MAX && isize::MIN <= rhs * self.0 <= isize::MAX }
-    open spec fn mul_spec(self, rhs: usize) -> DbUnits { DbUnits((rhs * self.0) as isize) }
-}
-/// model of `Int::try_from(usize)` (std TryFrom<usize> for isize) by its documented meaning
-#[verifier::external_body]
-pub fn vp_int_try_from_usize(w: usize) -> (r: Result<Int, LayoutError>)
-    ensures w <= isize::MAX ==> r == Ok::<Int, LayoutError>(w as isize), w > isize::MAX ==> r is Err,
-{ match Int::try_from(w) { Ok(v) => Ok(v), Err(_) => Err(LayoutError { }) } }
-impl std::ops::Mul<usize> for DbUnits {
-    type Output = Self;
-//@ fn layout21tetris/src/coords.rs :: impl std::ops::Mul<usize> for DbUnits :: fn mul
-//@   sub R5 /Int::try_from\(rhs\)/ => vp_int_try_from_usize(rhs)
-//@ end
-}
-/// R5: per-track data reduced to the two fields centre/span read
-pub struct TrackData { pub start: DbUnits, pub width: DbUnits }
-pub struct LayerPeriodData { pub signals: Vec<TrackData> }
-/// R5: ValidMetalLayer reduced to the fields centre/span read
-pub struct ValidMetalLayer { pub period_data: LayerPeriodData, pub pitch: DbUnits }
-pub open spec fn layer_ok(l: ValidMetalLayer) -> bool {
-    &&& l.period_data.signals@.len() >= 1 &&& 0 < l.pitch.0 <= 0x1_0000_0000
-    &&& forall|i: int| 0 <= i < l.period_data.signals@.len() ==> 0 <= (#[trigger] l.period_data.signals@[i]).start.0 <= 0x1_0000_0000 && 0 <= l.period_data.signals@[i].width.0 <= 0x1_0000_0000
-}
-impl ValidMetalLayer {
-//@ fn layout21tetris/src/validate.rs :: impl ValidMetalLayer :: fn center
-//@   ret r
-//@   sub R10 /cursor \+= ([^;]*);/ => vp_add_assign(&mut cursor, \1);
-//@   atstart
-//|         proof {
-//|             let n = self.period_data.signals@.len() as int; let q = idx as int / n; let p = self.pitch.0 as int;
-//|             assert(0 <= q <= idx) by (nonlinear_arith) requires q == idx as int / n, n >= 1, idx >= 0;
-//|             assert(0 <= q * p <= 0x1000_0000 * 0x1_0000_0000 && q * p == p * q) by (nonlinear_arith) requires 0 <= q <= 0x1000_0000, 0 < p <= 0x1_0000_0000;
-//|             assert(0 <= idx as int % n < n);
-//|         }
-//@   spec
-//|     requires layer_ok(*self), idx <= 0x1000_0000,
-//|     ensures r is Ok, ({
-//|         let n = self.period_data.signals@.len() as int; let t = self.period_data.signals@[idx as int % n];
-//|         // period number * pitch + the track's offset in its period + half its width
-//|         r->Ok_0.0 == self.pitch.0 * (idx as int / n) + t.start.0 + t.width.0 / 2
-//|     }),
-//@ end
-//@ fn layout21tetris/src/validate.rs :: impl ValidMetalLayer :: fn span
-//@   ret r
-//@   atstart
-//|         proof {
-//|             let n = self.period_data.signals@.len() as int; let q = idx as int / n; let p = self.pitch.0 as int;
-//|             assert(0 <= q <= idx) by (nonlinear_arith) requires q == idx as int / n, n >= 1, idx >= 0;
-//|             assert(0 <= q * p <= 0x1000_0000 * 0x1_0000_0000 && q * p == p * q) by (nonlinear_arith) requires 0 <= q <= 0x1000_0000, 0 < p <= 0x1_0000_0000;
-//|             assert(0 <= idx as int % n < n);
-//|         }
-//@   spec
-//|     requires layer_ok(*self), idx <= 0x1000_0000,
-//|     ensures r is Ok, ({
-//|         let n = self.period_data.signals@.len() as int; let t = self.period_data.signals@[idx as int % n];
-//|         r->Ok_0.0.0 == self.pitch.0 * (idx as int / n) + t.start.0 && r->Ok_0.1.0 == r->Ok_0.0.0 + t.width.0
-//|     }),
-//@ end
-}
+//@ include units/tetris_track/track.inc.rs
 proof fn canary_tiles(s: Seq<TrackSegment>) requires tiles(s), s.len() == 3 ensures false {}
 proof fn canary_layer(l: ValidMetalLayer) requires layer_ok(l), l.period_data.signals@.len() == 2 ensures false {}
 }
